@@ -47,6 +47,17 @@ def bytesLt : Bytes → Bytes → Bool
 
 def bytesLe (a b : Bytes) : Bool := !bytesLt b a
 
+/-- stable insertion sort by a byte-string key (the models' stand-in for Go's `sort.Sort` /
+    `sort.Strings`; on lists with distinct keys every correct sort gives the same result,
+    see `Rio/Proofs/Sort.lean`). -/
+def insertBy {α : Type} (key : α → Bytes) (x : α) : List α → List α
+  | [] => [x]
+  | q :: qs => if bytesLt (key x) (key q) then x :: q :: qs else q :: insertBy key x qs
+
+def sortBy {α : Type} (key : α → Bytes) : List α → List α
+  | [] => []
+  | x :: xs => insertBy key x (sortBy key xs)
+
 /-! ### hex codec for the driver protocol (`-` = empty string) -/
 
 def hexDigit (n : Nat) : Char :=
